@@ -953,10 +953,18 @@ class C15(Property):
             return self.impl_session(case)
         j = f(case['jitter'])
         jarg = self.jarg(j, case['py'])
+        # a `D` twin directly follows its `F` case and is the very same call (each case runs in a fresh module, so
+        # the observation is a function of the call): the implementation is run once for the two model instances
+        sig = json.dumps({k: v for k, v in case.items() if k != 'inst'}, sort_keys=True)
+        last = self.__dict__.get('_last_call')
+        if case['inst'] == 'D' and last and last[0] == sig:
+            self.stats['inst:D'] = self.stats.get('inst:D', 0) + 1
+            return self._remember(case, last[1])
         iu = self.fresh_module()         # every case starts from a freshly imported module: a failing case fails alone
         obs = self.call(case, jarg, iu)
         if j != 0.0:
             obs['base'] = self.call(case, False, iu)
+        self._last_call = (sig, obs)
         k = 'exc:' + str(obs['exc']) if obs['exc'] else 'count:' + ('None' if case['count'] is None else
                                                                    'repeat' if case['count'] == 'repeat' else 'int')
         for k in (k, 'inst:' + case['inst'], 'fn:' + ('backoff' if case['fn'] == 'L' else 'backoff_iter'),
